@@ -47,6 +47,10 @@ const MDB_SHARD_HEADER_TAG: [u8; 32] = [
 
 #[inline]
 pub fn current_timestamp() -> u64 {
+    #[cfg(xet_verif)]
+    if let Some(t) = utils::verif::now_secs() {
+        return t;
+    }
     // Get the seconds since the epoc as u64
     std::time::SystemTime::now()
         .duration_since(std::time::UNIX_EPOCH)
@@ -1210,6 +1214,12 @@ impl MDBShardInfo {
             .duration_since(UNIX_EPOCH)
             .unwrap_or_default()
             .as_secs();
+
+        #[cfg(xet_verif)]
+        if let Some(t) = utils::verif::now_secs() {
+            out_footer.shard_creation_timestamp = t;
+            out_footer.shard_key_expiry = t.saturating_add(key_valid_for.as_secs());
+        }
 
         // Copy over the stored information elsewhere
         out_footer.materialized_bytes = materialized_bytes;
